@@ -44,7 +44,12 @@ func WorkDir() string {
 // Start loads the configuration text into config.Default and runs the real
 // server.New(WithDataDir, WithToken) + Run. One data dir per process (storage
 // is process-global in honeytrap).
-func Start(toml string) (*Server, error) {
+func Start(toml string) (*Server, error) { return StartWith(toml, true) }
+
+// StartWith is Start; with waitLab=false the configuration uses a listener
+// other than "lab" (e.g. the real socket listener) and the caller waits for
+// readiness itself.
+func StartWith(toml string, waitLab bool) (*Server, error) {
 	startMu.Lock()
 	defer startMu.Unlock()
 	run := Events.NextRun()
@@ -67,12 +72,15 @@ func Start(toml string) (*Server, error) {
 	}
 	ctx, cancel := context.WithCancel(context.Background())
 	go hc.Run(ctx)
+	tok, _ := os.ReadFile(filepath.Join(dir, "token"))
+	if !waitLab {
+		return &Server{Run: run, cancel: cancel, Token: string(tok), Dir: dir}, nil
+	}
 	deadline := time.Now().Add(60 * time.Second)
 	for {
 		if l := Current(); l != nil {
 			select {
 			case <-l.started:
-				tok, _ := os.ReadFile(filepath.Join(dir, "token"))
 				return &Server{L: l, Run: run, cancel: cancel, Token: string(tok), Dir: dir}, nil
 			default:
 			}
